@@ -214,9 +214,17 @@ func strRange(r *object.PanRange, runes []rune) object.PanObject {
 	runeArr := valRange(r, len(runes), func(i int64) object.PanObject {
 		return strIndex(i, runes)
 	})
+	arr, ok := runeArr.(*object.PanArr)
+	if !ok {
+		// error (such as zero step)
+		return runeArr
+	}
+
 	var out bytes.Buffer
-	for _, elem := range runeArr.(*object.PanArr).Elems {
-		out.WriteString(elem.(*object.PanStr).Value)
+	for _, elem := range arr.Elems {
+		if s, ok := elem.(*object.PanStr); ok {
+			out.WriteString(s.Value)
+		}
 	}
 	return object.NewPanStr(out.String())
 }
@@ -256,6 +264,11 @@ func valRange(
 	elems := []object.PanObject{}
 	for i := start; hasNext(i, stop); i += step {
 		elems = append(elems, valIndex(i))
+
+		// NOTE: the next index is out of range (this also prevents overflow)
+		if step > int64(size) || step < -int64(size) {
+			break
+		}
 	}
 
 	return object.NewPanArr(elems...)
@@ -266,15 +279,22 @@ func canBeUsedForRange(o object.PanObject) bool {
 }
 
 func fixRange(r *object.PanRange, length int64, step int64) (int64, int64) {
+	// NOTE: indices are clamped to the both ends of the sequence
+	// ([0, length] if step is positive, [-1, length-1] if step is negative)
+	lower, upper := int64(0), length
+	if step < 0 {
+		lower, upper = -1, length-1
+	}
+
 	fix := func(i int64) int64 {
 		if i < -length {
-			return 0
-		}
-		if i > length {
-			return length
+			return lower
 		}
 		if i < 0 {
-			return i + length
+			i += length
+		}
+		if i > upper {
+			return upper
 		}
 		return i
 	}
